@@ -62,6 +62,28 @@ def valueEq : Value → Value → Bool
   | .void, .void => true
   | _, _ => false
 
+mutual
+/-- the derived `PartialEq for Value` in full (numbers by `=`, pairs and vectors structurally —
+`Rc<T>: PartialEq` compares contents —, procedures by their text) -/
+def derivedEq (σ : Store) : Nat → Value → Value → Bool
+  | 0, _, _ => false
+  | fuel + 1, a, b =>
+    match a, b with
+    | .num x, .num y => Num.eq x y
+    | .pair a1 d1, .pair a2 d2 => derivedEq σ fuel a1 a2 && derivedEq σ fuel d1 d2
+    | .nil, .nil => true
+    | .vec i, .vec j =>
+      match σ.vecs[i]?, σ.vecs[j]? with
+      | some c1, some c2 => c1.mutable == c2.mutable && derivedEqList σ fuel c1.items c2.items
+      | _, _ => false
+    | x, y => valueEq x y
+def derivedEqList (σ : Store) : Nat → List Value → List Value → Bool
+  | 0, _, _ => false
+  | _ + 1, [], [] => true
+  | fuel + 1, x :: xs, y :: ys => derivedEq σ fuel x y && derivedEqList σ fuel xs ys
+  | _ + 1, _, _ => false
+end
+
 /-- `eqv` (also bound to `eq?`) -/
 def eqv : Value → Value → Bool
   | .vec a, .vec b => a == b
